@@ -25,9 +25,12 @@ package gnmi
 
 //@ spec noStoreEffect() bool = cfgValueWrites == old(cfgValueWrites) && cfgStatusWrites == old(cfgStatusWrites) && proposalCreates == old(proposalCreates) && deviceSetCalls == old(deviceSetCalls)
 
+// the server as NewService wires it: every store and registry is present
+//@ spec serverWF(s *Server) bool = s != nil && s.pluginRegistry != nil && s.topo != nil && s.transactions != nil && s.proposals != nil && s.configurations != nil && s.conns != nil
+
 //@ func (*Server).Set
 //@   props C08, C13, C14
-//@   requires s != nil && req != nil
+//@   requires serverWF(s) && req != nil
 //@   probe evState: evState(transactionEvent)
 //@   probe evSync: ite(evSync(transactionEvent), 1, 0)
 //@   probe evAsync: ite(evAsync(transactionEvent), 1, 0)
@@ -56,9 +59,10 @@ package gnmi
 //@ spec targetsWF(targets map[configapi.TargetID]*targetInfo) bool = forall t string :: (t in targets) ==> targets[t] != nil && allocated(targets[t]) && targets[t].targetID == t && targets[t].plugin != nil && targets[t].updates != nil
 
 //@ func (*Server).getTargetInfo(s, ctx, targets, overrides, idPrefix, id) (target, err)
-//@   props C13, C05
+//@   props C13, C05, C12
+//@   safe
 //@   modifies mapOf(targets), mapOf(overrides.Overrides), lastTopoGetOK, lastGetPluginOK
-//@   requires s != nil && targets != nil && overrides != nil && overrides.Overrides != nil && targetsWF(targets)
+//@   requires serverWF(s) && targets != nil && overrides != nil && overrides.Overrides != nil && targetsWF(targets)
 //@   ensures {C13} targets-stay-well-formed: targetsWF(targets)
 //@   ensures {C13} prefix-target-wins: err == nil ==> target != nil && target.targetID == resolvedTarget(idPrefix, id) && (resolvedTarget(idPrefix, id) in targets) && targets[resolvedTarget(idPrefix, id)] == target
 //@   ensures {C13,C05} unknown-target-or-model-refused: err == nil && !old(resolvedTarget(idPrefix, id) in targets) ==> lastTopoGetOK && lastGetPluginOK && target.plugin != nil
@@ -66,18 +70,20 @@ package gnmi
 //@   ensures {C13} other-targets-untouched: forall t string :: t != resolvedTarget(idPrefix, id) ==> (t in targets) == old(t in targets) && targets[t] == old(targets[t])
 
 //@ func (*Server).doDelete(s, prefix, gnmiPath, target) (err)
-//@   props C13
+//@   props C13, C12
+//@   safe
 //@   modifies target.removes, checkFailures
-//@   requires s != nil && target != nil && target.plugin != nil
+//@   requires serverWF(s) && target != nil && target.plugin != nil
 //@   ensures {C13} delete-lands-on-effective-path: err == nil ==> len(target.removes) == old(len(target.removes)) + 1 && (target.removes[len(target.removes) - 1] == effPath(prefix, gnmiPath) || (hasPrefix(effPath(prefix, gnmiPath), target.removes[len(target.removes) - 1] + "/") && !contains(substr(effPath(prefix, gnmiPath), len(target.removes[len(target.removes) - 1]) + 1, len(effPath(prefix, gnmiPath))), "/")))
 //@   ensures {C13} refused-delete-records-nothing: err != nil ==> len(target.removes) == old(len(target.removes)) && arrOf(target.removes) == old(arrOf(target.removes)) && checkFailures == old(checkFailures) + 1
 //@   ensures {C13} accepted-delete-passed-checks: err == nil ==> checkFailures == old(checkFailures)
 //@   ensures {C13} delete-touches-no-update: domOf(target.updates) == old(domOf(target.updates)) && valsOf(target.updates) == old(valsOf(target.updates))
 
 //@ func (*Server).doUpdateOrReplace(s, ctx, prefix, u, target) (err)
-//@   props C13
+//@   props C13, C12
+//@   safe
 //@   modifies mapOf(target.updates), checkFailures, getPathValuesCalls, lastGetPathValuesPrefix
-//@   requires s != nil && target != nil && target.plugin != nil && target.updates != nil && u != nil
+//@   requires serverWF(s) && target != nil && target.plugin != nil && target.updates != nil && u != nil && wireValidTV(u.Val)
 //@   ensures {C13} update-lands-on-effective-path: err == nil && getPathValuesCalls == old(getPathValuesCalls) ==> (effPath(prefix, u.Path) in target.updates) && (forall k string :: k != effPath(prefix, u.Path) ==> (k in target.updates) == old(k in target.updates))
 //@   ensures {C13} json-update-rooted-at-effective-path: getPathValuesCalls > old(getPathValuesCalls) ==> lastGetPathValuesPrefix == effPath(prefix, u.Path)
 //@   ensures {C13} refused-update-records-nothing: err != nil ==> domOf(target.updates) == old(domOf(target.updates)) && checkFailures > old(checkFailures)
@@ -95,8 +101,9 @@ package gnmi
 //@   ensures sctx.treqs != nil && fresh(sctx.treqs)
 
 //@ func (*Server).processSubscribeRequest(s, ctx, sctx, req) (err)
-//@   props C19
-//@   requires s != nil && sctx != nil && wireValidSub(req) && (forall t string :: !targetLookups[t])
+//@   props C19, C12
+//@   safe
+//@   requires serverWF(s) && sctx != nil && wireValidSub(req) && (forall t string :: !targetLookups[t])
 //@   ensures {C19} duplicate-subscription-refused: isSubscribeMsg(req) && old(sctx.req) != nil ==> err != nil && sctx.req == old(sctx.req) && sctx.treqs == old(sctx.treqs) && targetLookupCount == old(targetLookupCount) && sbSubscribeCalls == old(sbSubscribeCalls) && pollCalls == old(pollCalls)
 //@   ensures {C19} poll-before-subscribe-refused: !isSubscribeMsg(req) && isPollMsg(req) && old(sctx.req) == nil ==> err != nil && targetLookupCount == old(targetLookupCount) && pollCalls == old(pollCalls)
 //@   ensures {C19} unknown-message-refused: !isSubscribeMsg(req) && !isPollMsg(req) ==> err != nil && targetLookupCount == old(targetLookupCount) && sbSubscribeCalls == old(sbSubscribeCalls) && pollCalls == old(pollCalls)
